@@ -403,6 +403,8 @@ def check(model, rep):
     except CannotDecide as e:
         rep.cannot('C17.pairing', 'Solver.run', str(e))
     check_kind(model, rep)
+    from sa.forwarding import check_forwarding
+    check_forwarding(model, rep, 'C17.forwarding', tuple(VARIABLE_ATTR.values()) + ('time_variables',))
     from checks.c12 import check_reset
     check_reset(model, rep, R='C17.reset')
     check_export(model, rep)
